@@ -211,6 +211,11 @@ def run_contract_case(res, spec):
                     vjp, val = make_vjp(fun, x0)
                     g = float(rng.uniform(0.5, 1.5))
                     r = vjp(g)
+                    r_again = vjp(g)
+                    if not bits_equal(onp.asarray([float(t) for t in r_again]), onp.asarray([float(t) for t in r])):
+                        return viol("unstable_repeat", "second call of the VJP function returned %r, first %r" % (r_again, r))
+                    # the repeated call logs a second application per argument
+                    del LOG[len(LOG) - sum(1 for e in LOG if e[0] == "vjp_apply") // 2:]
                     if not isinstance(r, tuple) or len(r) != len(S):
                         return viol("wrong_structure", "vjp result %r" % (r,))
                     for k, i in enumerate(S):
@@ -333,6 +338,9 @@ def run_checkpoint_case(res, rng, i):
     U = user_prims()
     prog = programs.gen_program(rng, n_ops=int(rng.choice([3, 6, 10])), shape=[(3,), (2, 2)][i % 2], p_dead=0.1, p_multi=0.3, families=("unary", "binary", "alias", "sparse", "reduce", "user"))
     x = rng.uniform(0.3, 1.2, size=tuple(prog["shape"])) * rng.choice([-1.0, 1.0], size=tuple(prog["shape"]))
+    if not programs.well_scaled(prog, x, RAW_USER, bound=1e3):
+        res["not_judged"]["ill_scaled"] = res["not_judged"].get("ill_scaled", 0) + 1
+        return
     variant = ["plain", "nested", "kwargs", "two_args", "inside_graph"][i % 5]
     st = programs.structure_signature(prog)
     sig = {"engine": "ext", "family": "checkpoint", "variant": variant, "ops": st["ops"]}
